@@ -62,6 +62,11 @@ let () =
       Printf.sprintf "len=%x bytes=%s" (List.length bs) (sl bs)
     | _ -> failwith "dyn")
 
+let () =
+  reg "iu" (fun a -> match a with
+    | [k; w; b0; b1] -> Printf.sprintf "v=%s adv=%s" (hz (inline_extract (z_of_hex k) (z_of_hex w) (z_of_hex b0) (z_of_hex b1))) (hz (inline_advance (z_of_hex k) (z_of_hex w)))
+    | _ -> failwith "iu")
+
 (* ---------------- C09 ---------------- *)
 let dims5 s = match zlist_of_string s with
   | [a; b; c; d; e] -> (a, b, c, d, e)
